@@ -156,6 +156,9 @@ def e2e_part(name, profiles, pairs, tags, nontrivial, n_quick=120, n_thorough=12
                     # business; here it makes the batch unusable and is reported as a broken tie
                     dis.append({"stream": "e2e-" + tag, "request": None,
                                 "why": "unattributed wire output: %s" % info["unattributed"][:3]})
+                    if any("generate failed" == x.strip() for x in info["unattributed"]):
+                        bno += 1
+                        continue        # the packages did not load: nothing in this batch was analysed
                 for ur in units:
                     stats["units"] += 1
                     rep.evaluations += 1
@@ -229,12 +232,14 @@ P_CLEAN = [("c", {"p_cleanup": 0.7, "p_err": 0.55, "p_func": 0.7, "min_structs":
 
 P_NAMES = [("n", {"adversarial": True, "p_err": 0.55, "p_cleanup": 0.6, "p_func": 0.65, "units": [1, 2]})]
 
-e2e_prop("C03", P_CLEAN + P_DEFAULT + P_NAMES, _pairs_c03, {"C03"},
+P_LONG = [("l", {"min_structs": 13, "max_structs": 16, "p_func": 0.95, "p_cleanup": 0.9, "p_err": 0.5, "units": [1], "p_twin": 0.0})]
+
+e2e_prop("C03", P_CLEAN + P_DEFAULT + P_NAMES + P_LONG, _pairs_c03, {"C03"},
          lambda ur: any(p for p, a, b in ur.run_pairs),
          "generated programs (1-3 injectors, 3-9 struct types, providers with every mix of cleanup/error results, struct/"
          "value/field steps interleaved) run under every single-failure plan, alternating with success runs; "
          "non-trivial = injector executed under at least one failing plan")
-e2e_prop("C04", P_CLEAN + P_DEFAULT + P_NAMES, _pairs_c04, {"C04"},
+e2e_prop("C04", P_CLEAN + P_DEFAULT + P_NAMES + P_LONG, _pairs_c04, {"C04"},
          lambda ur: ur.u.inj["cleanup"] and (ur.impl or "").startswith("ok"),
          "same programs, success plans; non-trivial = accepted injector with a cleanup result")
 e2e_prop("C01", P_DEFAULT + P_CLEAN, _pairs_plan, {"C01"},
@@ -247,8 +252,10 @@ register("C02",
          "e2e tier: generated programs, call list parsed from wire_gen.go and run-time traces of instrumented providers "
          "(argument identities) compared with the model and with the declarative wiring oracle",
          [planner_part("C02", _nt_calls2),
-          e2e_part("C02", P_DEFAULT, _pairs_c02, {"C02", "C11", "C12", "C13"}, lambda ur: len((ur.impl or "").split()) >= 3,
-                   n_quick=90, n_thorough=900)])
+          e2e_part("C02", P_DEFAULT + [("p", {"p_extra_params": 0.95, "max_structs": 4, "units": [2, 3], "p_func": 0.2, "p_iface_root": 0.8,
+                                                "p_iface_arg": 0.4, "p_conc_arg": 0.8, "p_twin": 0.0})], _pairs_c02,
+                   {"C02", "C11", "C12", "C13"}, lambda ur: len((ur.impl or "").split()) >= 3,
+                   n_quick=120, n_thorough=1000)])
 register("C11",
          "unit tier: random programs containing interface bindings (non-trivial); e2e tier: value/pointer receivers, "
          "bindings to providers / struct providers / values / arguments / fields, consumers of I and of C; "
@@ -362,7 +369,7 @@ def _planted(ur):
 # re-register the planner properties with an additional source-level (e2e) part
 for _name, _kinds, _rule in [
         ("C05", {"dup": "multi:"}, "two sources for one type"),
-        ("C06", {"missing": ("noprov:", "bindmissing:")}, "a needed source removed"),
+        ("C06", {"missing": ("noprov:", "bindmissing:"), "missingtwin": ("noprov:", "bindmissing:")}, "a needed source removed"),
         ("C08", {"unused": "unused", "twinunused": "unusedprov:"}, "a superfluous direct item")]:
     _unit_nt = {"C05": _nt_dups, "C06": _nt_missing, "C08": _nt_unused}[_name]
     register(_name,
@@ -370,7 +377,9 @@ for _name, _kinds, _rule in [
              "e2e tier: generated Go programs with a planted defect (%s) run through the real wire binary, diagnostics classified "
              "and compared with the model's verdict; non-trivial = the defect is present" % _rule,
              [planner_part(_name, _unit_nt),
-              e2e_part(_name, [("x", {"plant": list(_kinds), "units": [1, 2], "p_twin": 0.6})], _pairs_plan, set(), _planted,
+              e2e_part(_name, [("x", {"plant": list(_kinds), "units": [1, 2], "p_twin": 0.6}),
+                               ("y", {"plant": list(_kinds), "units": [1, 2], "adversarial": True, "plant_p": 0.7, "p_samepkg": 0.8,
+                                      "max_structs": 9, "min_structs": 6})], _pairs_plan, set(), _planted,
                        n_quick=60, n_thorough=600, build=False, runit=False, extra=_planted_oracle(_kinds))])
 
 register("C09",
@@ -532,7 +541,9 @@ register("C01",
          "providers, variadics, renamed and same-named packages): every accepted package is compiled (go build) and every injector is "
          "assigned to a variable of its declared function type; programs with an unexported provider function reached through another "
          "package's set must be rejected; non-trivial = accepted injector / planted program",
-         [e2e_part("C01", P_DEFAULT + P_CLEAN + [("a", {"adversarial": True})], _pairs_plan, {"C01"},
+         [e2e_part("C01", P_DEFAULT + P_CLEAN + [("a", {"adversarial": True}),
+                                                  ("f", {"p_foreign_func": 0.9, "p_func": 0.5, "p_field": 0.3, "units": [1], "max_structs": 5, "p_bridge": 0.9})],
+                   _pairs_plan, {"C01"},
                    lambda ur: (ur.impl or "").startswith("ok"), n_quick=150, n_thorough=1500),
           e2e_part("C01", [("u", {"plant": ["unexported"], "plant_p": 1.0, "units": [1, 2], "max_structs": 8})],
                    lambda ur: [] if _planted(ur) else _pairs_plan(ur), {"C01"}, _planted,
